@@ -22,7 +22,7 @@ func init() {
 	register(&propDef{
 		ID:  "C15",
 		Run: runC15,
-		Explain: "Decided (structural clauses): (a) coalescing signals cannot be lost or block: every channel the watcher goroutine signals on is created with a constant capacity >= 1, every send on it is the non-blocking select/default form, and in Read the wait for a signal comes only after a read attempt of the current file in the same iteration; (b) poller offset bookkeeping: every byte count returned by the file's Read is added to the tracked offset, Drain stores the Seek result, and after a re-open every path either seeks to the tracked offset or resets it to zero before the next read; (c) the time-flush path sends what it has: the flush timestamp is only renewed on paths that actually sent a batch, and the rest of C01-b holds for the time-flush loop. " +
+		Explain: "Decided (structural clauses): (a) coalescing signals cannot be lost or block: every channel the watcher goroutine signals on is created with a constant capacity >= 1, every send on it is the non-blocking select/default form, and in Read the wait for a signal comes only after a read attempt of the current file in the same iteration; (b) poller offset bookkeeping: every byte count returned by the file's Read is added to the tracked offset, Drain stores the Seek result, and after a re-open every path either seeks to the tracked offset or resets it to zero before the next read; (c) the time-flush path sends what it has: the flush timestamp is only renewed on paths that actually sent a batch, and the rest of C01-b holds for the time-flush loop. The watcher relates an event to the followed file only by an equality test of the two names under one normalisation; the time-flush loop satisfies the append/send/re-make rules of C01-b. " +
 			"NOT decided: exactly-once, in-order delivery for every history and timing (needs the file system, the clock and the scheduler), blocking versus ending, rotation semantics beyond the offset bookkeeping.",
 		Assume: []string{"fsnotify delivers an event for every write/create/remove of the watched directory"},
 	})
